@@ -1,4 +1,269 @@
-(** Lemmas for C14 (in progress). *)
-From Coq Require Import ZArith List String Bool Lia Permutation.
+(** Lemmas for property C14, part 6: the statements of Properties/C14.v that are not already
+    theorems of the other parts -- the code's own iteration order is a permutation, the
+    rotation field is exact, what the schema cannot express is an error (or, for
+    `Units::Pico`, the `unimplemented!()` panic), the exporter as found (rotation written as
+    0) is refuted by a closed witness, and closed examples that meet every hypothesis.
+
+    Parts: Raw/RawProtoBase_proofs.v (monads, layer table), RawProtoImport_proofs.v (the importer keeps
+    the content), RawProtoOrder_proofs.v (dependency order, via the C17 theorems),
+    RawProtoTotal_proofs.v (when the importer succeeds), RawProtoExport_proofs.v (the exporter
+    writes the content; raw -> proto -> raw), RawProtoBack_proofs.v (proto -> raw -> proto). *)
+From Coq Require Import ZArith NArith List String Bool Lia Permutation Arith.
 From L21 Require Import Base.F64 Base.Outcome Raw.RawData Raw.RawProto Raw.RawProtoSpec.
+From L21 Require Export Raw.RawProtoBase_proofs Raw.RawProtoImport_proofs Raw.RawProtoOrder_proofs
+  Raw.RawProtoTotal_proofs Raw.RawProtoExport_proofs Raw.RawProtoBack_proofs.
+From L21 Require Order.DepOrderSpec.
 Import ListNotations.
+Local Open Scope list_scope.
+Local Open Scope Z_scope.
+
+(** * `sorted_by_layer` visits every entry once *)
+Lemma insert_entry_perm : forall x l, Permutation (insert_entry x l) (x :: l).
+Proof.
+  induction l as [|y r IH]; simpl; auto. destruct (Nat.leb (fst x) (fst y)); auto.
+  eapply perm_trans; [apply perm_skip; apply IH|apply perm_swap].
+Qed.
+Lemma sorted_by_layer_perm : perm_oracle sorted_by_layer.
+Proof.
+  intros m. unfold sorted_by_layer. induction m as [|x r IH]; simpl; auto.
+  eapply perm_trans; [apply insert_entry_perm|apply perm_skip; auto].
+Qed.
+
+Theorem raw_proto_raw_code : forall L ly0, proto_exportable L -> layers_wf ly0 ->
+  exists P L', to_proto L = Ok P /\ from_proto ly0 P = Ok L' /\ raw_equiv_grouped L L'.
+Proof. intros. apply raw_proto_raw; auto. apply sorted_by_layer_perm. Qed.
+
+(** * the rotation field is exactly the rotation content, or an error *)
+Theorem export_rotation_exact : forall a v, export_rotation a = Ok v <-> angle_content a = Some v.
+Proof.
+  intros [b|] v; simpl.
+  - destruct (f64_int_value b) as [w|]; [destruct (i32_okb w)|]; split; intros H; inversion H; auto.
+  - split; intros H; inversion H; auto.
+Qed.
+Theorem export_rotation_error : forall a, angle_content a = None -> exists e, export_rotation a = Err e.
+Proof.
+  intros [b|] H; simpl in *; [|discriminate].
+  destruct (f64_int_value b) as [w|]; [destruct (i32_okb w); [discriminate|]|]; eauto.
+Qed.
+(** ... and such an instance makes the whole export an error (not a panic, not a message with
+    another rotation), when it is the first thing wrong with the library *)
+Lemma mapM_first_err : forall (A B : Type) (f : A -> res B) l1 x l2 e,
+  (forall y, In y l1 -> exists z, f y = Ok z) -> f x = Err e -> mapM f (l1 ++ x :: l2) = Err e.
+Proof.
+  induction l1 as [|y r IH]; intros x l2 e Hok He; simpl.
+  - rewrite He. reflexivity.
+  - destruct (Hok y (or_introl eq_refl)) as [z Hz]. rewrite Hz. simpl. rewrite (IH x l2 e); auto. intros; apply Hok; right; auto.
+Qed.
+
+(** * what the schema cannot express *)
+Theorem export_pico_panics : forall xrot ord L, lib_units L = Pico -> to_proto_with xrot ord L = Panic.
+Proof. intros xrot ord L H. unfold to_proto_with. rewrite H. reflexivity. Qed.
+
+Theorem export_cyclic_error : forall xrot ord L,
+  lib_units L <> Pico -> closed (lib_cells L) -> ~ acyclic (lib_cells L) -> exists e, to_proto_with xrot ord L = Err e.
+Proof.
+  intros xrot ord L Hu Hc Hac. unfold to_proto_with.
+  assert (exists u, export_units (lib_units L) = Ok u) as [u Eu] by (destruct (lib_units L); simpl; eauto; congruence).
+  rewrite Eu. simpl. destruct (dep_order_cyclic _ Hc Hac) as [e E]. rewrite E. simpl. eauto.
+Qed.
+
+(** * the exporter as found: rotation written as 0 *)
+Definition b90 : Z := 4636033603912859648.    (* 90.0_f64 *)
+Definition Lw : library :=
+  mklib "l" Nano []
+    [mkcell "a" None (Some (mklayout "a" [] [] []));
+     mkcell "b" None (Some (mklayout "b" [mkinst "i" 0 (mkpt 3 4) true (Some b90)] [] []))].
+
+Lemma reach_from_leaf : forall (deps : N -> list N) x y, deps x = [] -> DepOrderSpec.reach deps x y -> y = x.
+Proof. intros deps x y H R. inversion R; subst; auto. rewrite H in H0. destruct H0. Qed.
+
+Lemma Lw_exportable : proto_exportable Lw.
+Proof.
+  unfold proto_exportable, Lw. cbn [lib_units lib_cells lib_layers]. split; [discriminate|]. split; [|split].
+  - simpl. repeat constructor; simpl; intuition congruence.
+  - intros x [d [Hd Hr]]. unfold cell_deps_N in Hd.
+    destruct (N.to_nat x) as [|[|k]] eqn:Ex; simpl in Hd.
+    + destruct Hd.
+    + destruct Hd as [<-|[]]. apply reach_from_leaf in Hr; [|reflexivity]. subst x. discriminate.
+    + destruct k; destruct Hd.
+  - intros c [<-|[<-|[]]]; simpl; (split; [|discriminate]); intros l E; inversion E; subst; clear E; split; simpl.
+    + intros i [].
+    + intros e [].
+    + intros i [<-|[]]. simpl. split; [lia|]. vm_compute. discriminate.
+    + intros e [].
+Qed.
+
+Lemma perm2_inv : forall (A : Type) (a b : A) l, Permutation l [a; b] -> l = [a; b] \/ l = [b; a].
+Proof. intros A a b l H. apply Permutation_sym in H. apply Permutation_length_2_inv in H. tauto. Qed.
+
+Theorem raw_proto_raw_orig_witness :
+  proto_exportable Lw /\ layers_wf [] /\
+  exists P L', to_proto_orig Lw = Ok P /\ from_proto [] P = Ok L' /\ ~ raw_equiv_grouped Lw L'.
+Proof.
+  split; [apply Lw_exportable|]. split; [split; [constructor|intros l []]|].
+  eexists. eexists. split; [vm_compute; reflexivity|]. split; [vm_compute; reflexivity|].
+  intros [C [C' [E1 [E2 [_ [_ [cs [Hp Hf]]]]]]]].
+  vm_compute in E1. vm_compute in E2. inversion E1; subst C; clear E1. inversion E2; subst C'; clear E2.
+  cbn [ct_cells] in *.
+  inversion Hf as [|x y l l' Hxy Hf' ]; subst. inversion Hf' as [|x2 y2 l2 l2' Hxy2 Hf'']; subst. inversion Hf''; subst.
+  apply perm2_inv in Hp. destruct Hp as [Hp|Hp]; inversion Hp; subst.
+  - destruct Hxy2 as [_ [Hl _]]. simpl in Hl. destruct Hl as [_ [Hi _]]. simpl in Hi. inversion Hi.
+  - destruct Hxy as [Hn _]. simpl in Hn. discriminate.
+Qed.
+
+(** the round-trip statement, for the exporter as found, is false *)
+Theorem raw_proto_raw_orig_refuted :
+  ~ (forall ord L ly0, perm_oracle ord -> proto_exportable L -> layers_wf ly0 ->
+       exists P L', to_proto_with export_rotation_orig ord L = Ok P /\ from_proto ly0 P = Ok L' /\ raw_equiv_grouped L L').
+Proof.
+  intros H. destruct raw_proto_raw_orig_witness as [Hex [Hwf [P [L' [E1 [E2 Hn]]]]]].
+  destruct (H sorted_by_layer Lw [] sorted_by_layer_perm Hex Hwf) as [P2 [L2 [F1 [F2 F3]]]].
+  unfold to_proto_orig in E1. rewrite E1 in F1. inversion F1; subst P2. rewrite E2 in F2. inversion F2; subst L2. auto.
+Qed.
+
+(** the same defect seen from the message side: a canonical message with a rotation does not
+    come back *)
+Definition Pw : plib :=
+  mkplib "l" 1
+    [mkpcell "a" false None (Some (mkplayout "a" [] [] []));
+     mkpcell "b" false None (Some (mkplayout "b" [] [mkpinst "i" (Some (Some (RefLocal "a"))) (Some (mkpp 3 4)) true 90] []))]
+    false.
+Lemma Pw_ok : layers_wf [] /\ proto_typed Pw /\ deps_first Pw /\ canonical [] Pw.
+Proof.
+  split; [split; [constructor|intros l []]|]. split; [|split].
+  - intros c l i [<-|[<-|[]]] E Hi; inversion E; subst; simpl in Hi; [destruct Hi|]. destruct Hi as [<-|[]]. simpl. unfold i32_ok. lia.
+  - unfold deps_first, Pw. simpl. split; [intros i []|]. split; [|exact I]. intros i [<-|[]]. exists "a"%string. simpl. auto.
+  - unfold canonical, Pw. cbn [pb_author pb_cells]. split; auto.
+    constructor; [|constructor; [|constructor]];
+      (split; [reflexivity|]; split; [intros l E; inversion E; subst; split; constructor|intros a E; discriminate]).
+Qed.
+Theorem proto_raw_proto_orig_witness :
+  layers_wf [] /\ proto_typed Pw /\ deps_first Pw /\ canonical [] Pw /\
+  exists L P', from_proto [] Pw = Ok L /\ to_proto_orig L = Ok P' /\ P' <> Pw.
+Proof.
+  destruct Pw_ok as [A [B [C D]]]. repeat (split; auto).
+  eexists. eexists. split; [vm_compute; reflexivity|]. split; [vm_compute; reflexivity|]. discriminate.
+Qed.
+Theorem proto_raw_proto_orig_refuted :
+  ~ (forall ly0 P L, layers_wf ly0 -> proto_typed P -> deps_first P -> canonical ly0 P ->
+       from_proto ly0 P = Ok L -> to_proto_orig L = Ok P).
+Proof.
+  intros H. destruct proto_raw_proto_orig_witness as [A [B [C [D [L [P' [E1 [E2 Hne]]]]]]]].
+  specialize (H [] Pw L A B C D E1). rewrite E2 in H. inversion H. auto.
+Qed.
+
+(** * closed examples that meet every hypothesis *)
+Definition ly_nv : layers :=
+  [mklayer 5 (Some "M1"%string) [(0, Drawing); (1, Pin); (2, Obstruction)];
+   mklayer 7 None [(0, Drawing); (3, Pin); (4, Obstruction); (9, Other 9)]].
+(** users listed first; corners of the rectangle swapped; a rotated and reflected instance *)
+Definition L_nv : library :=
+  mklib "lib" Nano ly_nv
+    [mkcell "b" None
+       (Some (mklayout "b_lay"
+                [mkinst "i0" 1 (mkpt 10 20) true (Some b90); mkinst "i1" 1 (mkpt (-5) 0) false None]
+                [mkelem None 1 (Other 9) (Rect (mkpt 0 0) (mkpt 1 1))]
+                [mktext "t" (mkpt 1 2)]));
+     mkcell "a"
+       (Some (mkabstract "a" [mkpt 0 0; mkpt 9 0; mkpt 9 9; mkpt 0 9]
+                [mkabsport "p" [(1%nat, [Rect (mkpt 1 1) (mkpt 2 2)]); (0%nat, [Polygon [mkpt 0 0; mkpt 1 0; mkpt 1 1]; Rect (mkpt 4 4) (mkpt 3 3)])]]
+                [(0%nat, [Path [mkpt 0 0; mkpt 5 0] 2])]))
+       (Some (mklayout "a"
+                []
+                [mkelem (Some "vdd"%string) 0 Drawing (Rect (mkpt 5 9) (mkpt 1 2));
+                 mkelem None 1 Drawing (Path [mkpt 0 0; mkpt 10 0] 2);
+                 mkelem (Some "vdd"%string) 0 Drawing (Polygon [mkpt 0 0; mkpt 4 0; mkpt 4 4]);
+                 mkelem None 1 Drawing (Rect (mkpt 0 0) (mkpt 3 3))]
+                []))].
+
+Ltac numbered := eexists; eexists; split; [vm_compute; reflexivity|split; unfold i16_ok; lia].
+Ltac shapeok := simpl; unfold i64_ok, i64_min, i64_max, two63; lia.
+
+Lemma L_nv_exportable : proto_exportable L_nv.
+Proof.
+  unfold proto_exportable, L_nv. cbn [lib_units lib_cells lib_layers]. split; [discriminate|]. split; [|split].
+  - simpl. repeat constructor; simpl; intuition congruence.
+  - intros x [d [Hd Hr]]. unfold cell_deps_N in Hd.
+    destruct (N.to_nat x) as [|[|k]] eqn:Ex; simpl in Hd.
+    + assert (d = 1%N) by (destruct Hd as [<-|[<-|[]]]; reflexivity). subst d.
+      apply reach_from_leaf in Hr; [|reflexivity]. subst x. discriminate.
+    + destruct Hd.
+    + destruct k; destruct Hd.
+  - intros c [<-|[<-|[]]]; cbn [c_layout c_abs]; split.
+    + intros l E; inversion E; subst; clear E. split; cbn [lay_insts lay_elems].
+      * intros i [<-|[<-|[]]]; simpl; (split; [lia|]); vm_compute; discriminate.
+      * intros e [<-|[]]; cbn [e_layer e_purpose e_shape]; split; [numbered|shapeok].
+    + discriminate.
+    + intros l E; inversion E; subst; clear E. split; cbn [lay_insts lay_elems].
+      * intros i [].
+      * intros e [<-|[<-|[<-|[<-|[]]]]]; cbn [e_layer e_purpose e_shape]; split; try numbered; try shapeok; exact I.
+    + intros a E; inversion E; subst; clear E. split; cbn [ab_ports ab_blockages].
+      * intros p [<-|[]]. cbn [ap_shapes]. split; [|split].
+        -- simpl. repeat constructor; simpl; intuition congruence.
+        -- intros k ss [E|[E|[]]]; inversion E; subst; (split; [numbered|]); repeat constructor; try shapeok.
+        -- intros k k' ss ss' [E|[E|[]]] [E'|[E'|[]]] Hk; inversion E; inversion E'; subst; auto; vm_compute in Hk; discriminate.
+      * split; [|split].
+        -- simpl. repeat constructor; simpl; intuition.
+        -- intros k ss [E|[]]; inversion E; subst; (split; [numbered|]); repeat constructor; try shapeok.
+        -- intros k k' ss ss' [E|[]] [E'|[]] Hk; inversion E; inversion E'; subst; auto.
+Qed.
+Lemma ly_nv_wf : layers_wf ly_nv.
+Proof.
+  split.
+  - simpl. repeat constructor; simpl; intuition congruence.
+  - intros l [<-|[<-|[]]]; (split; [|split]); simpl;
+      try (repeat constructor; simpl; intuition congruence);
+      intros n p H; repeat (destruct H as [H|H]; [inversion H; subst; reflexivity|]); destruct H.
+Qed.
+
+(** a canonical message: two LayerShapes in a layout, an abstract whose layer lists are in the
+    order of the layer table, rotations 90, -90, 720 and 0 *)
+Definition P_nv : plib :=
+  mkplib "dom" 2
+    [mkpcell "a" false
+       (Some (mkpabstract "a" (Some (mkppoly "" [mkpp 0 0; mkpp 9 0; mkpp 9 9]))
+                [mkpabsport "p" [mkpls (Some (mkplayer 5 1)) [mkprect "" (Some (mkpp 1 1)) 2 3] [] [];
+                                 mkpls (Some (mkplayer 7 3)) [] [mkppoly "" [mkpp 0 0; mkpp 1 0; mkpp 1 1]] []]]
+                [mkpls (Some (mkplayer 5 2)) [] [] [mkppath "" [mkpp 0 0; mkpp 5 0] 2]]))
+       (Some (mkplayout "a"
+                [mkpls (Some (mkplayer 5 0)) [mkprect "vdd" (Some (mkpp 1 2)) 4 7] [] [mkppath "" [mkpp 0 0; mkpp 9 0] 2];
+                 mkpls (Some (mkplayer 8 6)) [] [mkppoly "n" [mkpp 0 0; mkpp 4 0; mkpp 4 4]] []]
+                [] [mkptext "t" (Some (mkpp 1 1))]));
+     mkpcell "b" false None
+       (Some (mkplayout "b" []
+                [mkpinst "i0" (Some (Some (RefLocal "a"))) (Some (mkpp 10 20)) true 90;
+                 mkpinst "i1" (Some (Some (RefLocal "a"))) (Some (mkpp 0 0)) false (-90);
+                 mkpinst "i2" (Some (Some (RefLocal "a"))) (Some (mkpp 0 0)) false 720;
+                 mkpinst "i3" (Some (Some (RefLocal "a"))) (Some (mkpp 1 1)) true 0] []))]
+    false.
+
+Ltac plscanon :=
+  split; [eexists; split; [reflexivity|split; unfold i16_ok; simpl; lia]|];
+  split; repeat constructor; try discriminate; simpl; unfold i64_max, two63; try lia.
+
+Lemma P_nv_ok : proto_typed P_nv /\ deps_first P_nv /\ canonical ly_nv P_nv.
+Proof.
+  split; [|split].
+  - intros c l i [<-|[<-|[]]] E Hi; inversion E; subst; cbn [ply_insts] in Hi; [destruct Hi|].
+    repeat (destruct Hi as [<-|Hi]; [simpl; unfold i32_ok; lia|]). destruct Hi.
+  - unfold deps_first, P_nv. simpl. split; [intros i []|]. split; [|exact I].
+    intros i Hi. exists "a"%string. repeat (destruct Hi as [<-|Hi]; [simpl; auto|]). destruct Hi.
+  - unfold canonical, P_nv. cbn [pb_author pb_cells]. split; auto.
+    constructor; [|constructor; [|constructor]]; (split; [reflexivity|]); split.
+    + intros l E; inversion E; subst; clear E. split; cbn [ply_shapes].
+      * constructor; [|constructor; [|constructor]]; (split; [plscanon|]); unfold pls_nonempty; simpl; [left|right; left]; discriminate.
+      * simpl. constructor; [intros [H|[]]; discriminate|constructor; [intros []|constructor]].
+    + intros a E; inversion E; subst; clear E. split; [eexists; split; reflexivity|]. cbn [pab_ports pab_blockages]. split.
+      * constructor; [|constructor]. cbn [pap_shapes]. split.
+        -- constructor; [|constructor; [|constructor]]; (split; [plscanon|]); simpl;
+             (split; [repeat constructor|]); (split; [repeat constructor|]); (split; [repeat constructor|]);
+             eexists; eexists; eexists; (split; [reflexivity|]); (split; [vm_compute; reflexivity|]); split; vm_compute; reflexivity.
+        -- vm_compute. split; [lia|]. split; exact I.
+      * split.
+        -- constructor; [|constructor]; (split; [plscanon|]); simpl;
+             (split; [repeat constructor|]); (split; [repeat constructor|]); (split; [repeat constructor|]);
+             eexists; eexists; eexists; (split; [reflexivity|]); (split; [vm_compute; reflexivity|]); split; vm_compute; reflexivity.
+        -- vm_compute. split; exact I.
+    + intros l E; inversion E; subst; clear E. split; cbn [ply_shapes]; constructor.
+    + intros a E; discriminate.
+Qed.
